@@ -110,8 +110,8 @@ def handleParse (s : Sess) (i : Nat) (op impl : Json) (line2 : Option Json := no
       match (if [5, 7, 9, 10].all c.allowed.contains then (s.defs.lookup p).getD (some {}) else none) with
       | none => (none, (s.defs.lookup p).getD (some {}))
       | some d =>
-        match op.getObjVal? "msgs" with
-        | .error _ => (none, none)                    -- raw bytes: the memory becomes unknown
+        match (if getBoolD op "nospec" false then Except.error "nospec" else op.getObjVal? "msgs") with
+        | .error _ => (none, none)                    -- raw bytes / deliberately non-conformant shapes: the memory becomes unknown
         | .ok ms =>
           match (fromJson? ms : Except String (List Spec.Msg)) with
           | .error _ => (none, none)
@@ -169,6 +169,9 @@ def handleParse (s : Sess) (i : Nat) (op impl : Json) (line2 : Option Json := no
               | .error _ => [])
         let classes0 := classes0 ++
           (if a.pkts.length ≥ 32 then ["c15-many-packets"] else []) ++
+          (if a.state.ipT.any (fun e => e.2.fields.any fun f => f.len == 65535) || a.state.ipO.any (fun e => e.2.fields.any fun f => f.len == 65535) ||
+              before.ipT.any (fun e => e.2.fields.any fun f => f.len == 65535) || before.ipO.any (fun e => e.2.fields.any fun f => f.len == 65535)
+            then ["ipfix-varlen-field"] else []) ++
           (if before.ipT.any (fun e => e.2.fields.any fun f => f.len == 0) || before.ipO.any (fun e => e.2.fields.any fun f => f.len == 0) ||
               before.v9T.any (fun e => e.2.fields.any fun f => f.len == 0) then ["c15-zero-length-fields"] else [])
         let stickyNow := ((s.sticky.lookup p).getD []) ++ classes0.filter (fun x => x == "ipfix-multi-template-set")
